@@ -63,7 +63,10 @@ SUPPORTED_MEMORY_WIDTHS: frozenset[int] = frozenset({8, 16, 32, 64})
 
 
 _LZMA_FORMAT = lzma.FORMAT_RAW
-_LZMA_DECOMPRESSION_FILTERS: List[Dict[str, int]] = [{"id": lzma.FILTER_LZMA2}]
+# a raw LZMA2 stream does not record its dictionary size, so the decoder must be given one at least as large as the
+# encoder's. presets 7-9 compress with 16-64 MiB dictionaries; the filter's default (preset 6, 8 MiB) can't decode them.
+_LZMA_MAX_PRESET_DICT_SIZE = 1 << 26
+_LZMA_DECOMPRESSION_FILTERS: List[Dict[str, int]] = [{"id": lzma.FILTER_LZMA2, "dict_size": _LZMA_MAX_PRESET_DICT_SIZE}]
 
 
 def _lzma_compression_filters(dw: int, preset: int) -> List[Dict[str, int]]:
